@@ -323,6 +323,7 @@ def check_inner(ctx, r, rid="R0"):
         r.missing("ParsedValue::resolve_foreign_key_inner")
         return False
     pnames = fn.params()
+    pop_fn = ctx.ast.fn(PV, "populate", impl_self="ParsedValue")
     T_FR, T_EN, T_IT = Bloc(Lit("fr "), Var("var_x")), Bloc(Lit("default "), Var("var_x")), Bloc(Lit("it "), Var("var_x"))
     targets = [("literal", Lit("a")), ("variable", Bloc(Lit("a "), Var("var_x"))), ("component", Comp("comp_b", Var("var_x"))), ("subkeys", SUBKEYS),
                ("reference", Bloc(FkNotSet("inner"), Var("var_x"))),
@@ -366,8 +367,18 @@ def check_inner(ctx, r, rid="R0"):
                 lc = a[1]
                 log.append(("resolve", rv, lc[1] if lc[0] == "str" else lc))
                 return C("Ok", UNIT)
+            def populate_b(rv, a):
+                # the real populate, observed: it must run after every nested reference was resolved
+                log.append(("populate",))
+                sub = evaluator()
+                g_ = sub.run_fn(pop_fn, [rv] + list(a))
+                if isinstance(g_, str):
+                    raise Unknown(g_)
+                return g_
             ev = evaluator()
             ev.builtins.update({"get_value_at": get_value_at, "resolve_foreign_key": resolve})
+            if pop_fn is not None:
+                ev.builtins["populate"] = populate_b
             cell = C("NotSet", A("fkpath"), av)
             params = {"foreign_key": cell, "values": A("values"), "top_locale": S(loc), "default_locale": S("en"), "key_path": A("key_path"),
                       "extensions": L(*[T(S(k), S(v)) for k, v in EXT.items()])}
@@ -416,6 +427,9 @@ def check_inner(ctx, r, rid="R0"):
                 bad += 1
                 r.viol("%s:resolve_foreign_key_inner#%s" % (rid, label), "a reference (%s, %s, locale %s; values per locale %s; inherits %s) gives %s and stores %s; the first locale of the chain that defines the target is %s: pure substitution stores %s"
                        % (cl, al, loc, {k: ("null" if v == NULL else absint.fmt(v)[:30]) for k, v in table.items()}, EXT, absint.fmt(got)[:200], absint.fmt(stored)[:300], eff_loc, absint.fmt(want_cell)[:300]), file=fn.file, line=fn.line)
+            elif ("populate",) in log and any(x[0] == "resolve" for x in log[log.index(("populate",)):]):
+                bad += 1
+                r.viol("%s:resolve_foreign_key_inner#%s#order" % (rid, label), "the target is substituted before all nested references (of the target and of the arguments) were resolved: %s" % [x[0] for x in log], file=fn.file, line=fn.line)
             elif sorted(map(repr, res_log)) != sorted(map(repr, want_res)):
                 bad += 1
                 r.viol("%s:resolve_foreign_key_inner#%s#nested" % (rid, label), "before substituting, the nested references of the target and of the arguments must be resolved in the locale the target came from (%s): resolved %s" % (eff_loc, [(absint.fmt(x[1])[:60], x[2]) for x in res_log]), file=fn.file, line=fn.line)
